@@ -26,9 +26,8 @@ Definition opt_map_all {A B} (f : A -> option B) (l : list A) : option (list B) 
 Definition is_nil {A} (l : list A) : bool := match l with [] => true | _ => false end.
 
 (** Which recorded defects a check is asked to overlook (all [false] = the property as stated). *)
-Record laxity := mkLax { lax_schema : bool; lax_link_ts : bool; lax_log_dropped : bool; lax_empty : bool;
-                         lax_zero_thr : bool }.
-Definition strict : laxity := mkLax false false false false false.
+Record laxity := mkLax { lax_schema : bool; lax_empty : bool; lax_zero_thr : bool }.
+Definition strict : laxity := mkLax false false false.
 
 (** * Attribute values *)
 Definition as_bool (v : pval) := match v with PBool b => Some b | _ => None end.
@@ -132,18 +131,9 @@ Definition span_guard (s : span) : bool :=
   count_ok (sp_dropped_attrs s) && count_ok (sp_dropped_events s) && count_ok (sp_dropped_links s) &&
   forallb event_guard (sp_events s) && forallb link_guard (sp_links s).
 
-(** Overlooking F-C13-1: links compared without their tracestate. *)
-Definition erase_link_ts (l : link) : link :=
-  mkLink (ln_trace l) (ln_span l) [] (ln_remote l) (ln_attrs l) (ln_dropped l).
-Definition norm_span (lx : laxity) (s : span) : span :=
-  if lax_link_ts lx then
-    mkSpan (sp_trace s) (sp_span s) (sp_tstate s) (sp_parent s) (sp_parent_remote s) (sp_name s) (sp_kind s)
-           (sp_start s) (sp_end s) (sp_attrs s) (sp_events s) (map erase_link_ts (sp_links s))
-           (sp_status s) (sp_status_msg s) (sp_dropped_attrs s) (sp_dropped_events s) (sp_dropped_links s)
-  else s.
-(** [span_same lx o x]: the decoded span [o] is the input span [x] (when [x] is within the guards). *)
-Definition span_same (lx : laxity) (o x : span) : bool :=
-  if span_guard x then eqb_of span_eq_dec (norm_span lx o) (norm_span lx (canon_span x)) else true.
+(** [span_same o x]: the decoded span [o] is the input span [x] (when [x] is within the guards). *)
+Definition span_same (o x : span) : bool :=
+  if span_guard x then eqb_of span_eq_dec o (canon_span x) else true.
 
 (** * Log records *)
 Definition lrec_of_pb (p : pb_lrec) : lrec :=
@@ -153,8 +143,7 @@ Definition lrec_of_pb (p : pb_lrec) : lrec :=
 Definition lrec_guard (r : lrec) : bool :=
   time_ok (lr_time r) && time_ok (lr_observed r) && ((0 <=? lr_sev r) && (lr_sev r <=? 24))%Z &&
   id_len 16 (lr_trace r) && id_len 8 (lr_span r) && (lr_flags r <? 2 ^ 32) && count_ok (lr_dropped r).
-(** Overlooking F-C13-4: an empty value and the string "INVALID" are not told apart;
-    overlooking F-C13-2: the dropped-attribute count is not compared. *)
+(** Overlooking F-C13-4: an empty value and the string "INVALID" are not told apart. *)
 Fixpoint fill_empty (v : lval) : lval :=
   match v with
   | LEmpty => LStr (str "INVALID")
@@ -166,7 +155,7 @@ Definition norm_lrec (lx : laxity) (r : lrec) : lrec :=
   let f := if lax_empty lx then fill_empty else (fun v => v) in
   mkLrec (lr_time r) (lr_observed r) (lr_event r) (lr_sev r) (lr_sev_text r) (f (lr_body r))
          (map (fun kv => (fst kv, f (snd kv))) (lr_attrs r)) (lr_trace r) (lr_span r) (lr_flags r)
-         (if lax_log_dropped lx then 0%Z else lr_dropped r).
+         (lr_dropped r).
 Definition lrec_same (lx : laxity) (o x : lrec) : bool :=
   if lrec_guard x then eqb_of lrec_eq_dec (norm_lrec lx o) (norm_lrec lx x) else true.
 
@@ -218,7 +207,7 @@ Definition canon_item {B} (f : B -> B) (x : item B) : item B :=
 Definition trace_spec (lx : laxity) (l : list (item span)) (o : list (pb_resource * list (pb_scope * list pb_span))) : bool :=
   match decode_groups span_of_pb o with
   | None => false
-  | Some g => groups_ok (span_same lx) (res_same lx) (map (canon_item (fun s => s)) l) g
+  | Some g => groups_ok span_same (res_same lx) (map (canon_item (fun s => s)) l) g
   end.
 (** The log clause on a decoded payload. *)
 Definition log_spec (lx : laxity) (l : list (item lrec)) (o : list (pb_resource * list (pb_scope * list pb_lrec))) : bool :=
